@@ -1352,3 +1352,96 @@ Proof.
     rewrite Hy. rewrite (Hd (l_feat L) (s_px S) _ _ Hx). reflexivity. }
   now rewrite E1, E2.
 Qed.
+
+(* ------------------------------------------------------------------ *)
+(* the documented pixelation offset satisfies the rescaling hypothesis  *)
+(* ------------------------------------------------------------------ *)
+Lemma pxdelta_rescale (expo : Q -> Q) lam :
+  (forall a b, a == b -> expo a == expo b) ->
+  ~ lam == 0 -> delta_rescale (pxdelta expo) lam.
+Proof.
+  intros Hp Hl f px x. unfold pxdelta, pw.
+  destruct (Qeq_dec px 0) as [E0|N0].
+  - (* px = 0 (the correction is not applied then): both scale factors are
+       34/100 times the inverse of zero, which is zero *)
+    assert (Z1 : (34 # 100) / (lam * px) == 0).
+    { unfold Qdiv. assert (Ez : lam * px == 0) by (rewrite E0; ring).
+      rewrite Ez. reflexivity. }
+    assert (Z2 : (34 # 100) / px == 0).
+    { unfold Qdiv. rewrite E0. reflexivity. }
+    destruct f; unfold sq, cube.
+    + rewrite (Hp (- (x * (lam * lam)) * ((34 # 100) / (lam * px) * ((34 # 100) / (lam * px))) / (71 # 10))
+                  (- x * ((34 # 100) / px * ((34 # 100) / px)) / (71 # 10)))
+        by (rewrite Z1, Z2; unfold Qdiv; ring).
+      rewrite (Hp (- (x * (lam * lam)) * ((34 # 100) / (lam * px) * ((34 # 100) / (lam * px))) / (386 # 10))
+                  (- x * ((34 # 100) / px * ((34 # 100) / px)) / (386 # 10)))
+        by (rewrite Z1, Z2; unfold Qdiv; ring).
+      rewrite (Hp (- (x * (lam * lam)) * ((34 # 100) / (lam * px) * ((34 # 100) / (lam * px))) / 296)
+                  (- x * ((34 # 100) / px * ((34 # 100) / px)) / 296))
+        by (rewrite Z1, Z2; unfold Qdiv; ring).
+      reflexivity.
+    + rewrite (Hp (- (x * (lam * lam * lam)) * ((34 # 100) / (lam * px) * ((34 # 100) / (lam * px)) * ((34 # 100) / (lam * px))) / 40)
+                  (- x * ((34 # 100) / px * ((34 # 100) / px) * ((34 # 100) / px)) / 40))
+        by (rewrite Z1, Z2; unfold Qdiv; ring).
+      rewrite (Hp (- (x * (lam * lam * lam)) * ((34 # 100) / (lam * px) * ((34 # 100) / (lam * px)) * ((34 # 100) / (lam * px))) / 450)
+                  (- x * ((34 # 100) / px * ((34 # 100) / px) * ((34 # 100) / px)) / 450))
+        by (rewrite Z1, Z2; unfold Qdiv; ring).
+      rewrite (Hp (- (x * (lam * lam * lam)) * ((34 # 100) / (lam * px) * ((34 # 100) / (lam * px)) * ((34 # 100) / (lam * px))) / 6040)
+                  (- x * ((34 # 100) / px * ((34 # 100) / px) * ((34 # 100) / px)) / 6040))
+        by (rewrite Z1, Z2; unfold Qdiv; ring).
+      reflexivity.
+  - destruct f; unfold sq, cube.
+    + rewrite (Hp (- (x * (lam * lam)) * ((34 # 100) / (lam * px) * ((34 # 100) / (lam * px))) / (71 # 10))
+                  (- x * ((34 # 100) / px * ((34 # 100) / px)) / (71 # 10)))
+        by (field; auto).
+      rewrite (Hp (- (x * (lam * lam)) * ((34 # 100) / (lam * px) * ((34 # 100) / (lam * px))) / (386 # 10))
+                  (- x * ((34 # 100) / px * ((34 # 100) / px)) / (386 # 10)))
+        by (field; auto).
+      rewrite (Hp (- (x * (lam * lam)) * ((34 # 100) / (lam * px) * ((34 # 100) / (lam * px))) / 296)
+                  (- x * ((34 # 100) / px * ((34 # 100) / px)) / 296))
+        by (field; auto).
+      reflexivity.
+    + rewrite (Hp (- (x * (lam * lam * lam)) * ((34 # 100) / (lam * px) * ((34 # 100) / (lam * px)) * ((34 # 100) / (lam * px))) / 40)
+                  (- x * ((34 # 100) / px * ((34 # 100) / px) * ((34 # 100) / px)) / 40))
+        by (field; auto).
+      rewrite (Hp (- (x * (lam * lam * lam)) * ((34 # 100) / (lam * px) * ((34 # 100) / (lam * px)) * ((34 # 100) / (lam * px))) / 450)
+                  (- x * ((34 # 100) / px * ((34 # 100) / px) * ((34 # 100) / px)) / 450))
+        by (field; auto).
+      rewrite (Hp (- (x * (lam * lam * lam)) * ((34 # 100) / (lam * px) * ((34 # 100) / (lam * px)) * ((34 # 100) / (lam * px))) / 6040)
+                  (- x * ((34 # 100) / px * ((34 # 100) / px) * ((34 # 100) / px)) / 6040))
+        by (field; auto).
+      reflexivity.
+Qed.
+
+(* joint rescaling with the documented pixelation formula: the only thing
+   assumed of exp is that it is a function of the number *)
+Theorem geometric_rescale_invariant_pxdelta :
+  forall (tri : list pt -> list triangle) (expo : Q -> Q)
+         (L : lut) (S : setup) (v lam : Q) (evs : list event),
+    (forall a b, a == b -> expo a == expo b) ->
+    lut_ok L -> setup_ok S -> 0 < lam ->
+    Forall2 oqeq
+            (route_scalar tri (pxdelta expo) L (rescale_setup S lam) v
+                          (map (rescale_event (l_feat L) lam) evs))
+            (route_scalar tri (pxdelta expo) L S v evs).
+Proof.
+  intros tri expo L S v lam evs Hp HL HS Hlam.
+  apply geometric_rescale_invariant; auto.
+  apply pxdelta_rescale; auto. now apply pos_neq0.
+Qed.
+
+(* with a stand-in for exp the offset is computed as documented:
+   offs + 0.020 e(-x s/7.1) + 0.010 e(-x s/38.6) + 0.005 e(-x s/296) *)
+Example ex_pxdelta :
+  pxdelta (fun a => 1 + a / 1000) Area (34 # 100) 71
+  == (12 # 10000) + (20 # 1000) * (1 + (- (10)) / 1000)
+     + (10 # 1000) * (1 + (- (710 # 386)) / 1000)
+     + (5 # 1000) * (1 + (- (71 # 296)) / 1000).
+Proof. vm_compute. reflexivity. Qed.
+
+Example ex_pxdelta_rescale :
+  delta_rescale (pxdelta (fun a => 1 + a / 1000)) (3 # 2).
+Proof.
+  apply pxdelta_rescale; [|discriminate].
+  intros a b H. now rewrite H.
+Qed.
